@@ -79,9 +79,12 @@ Agree(p) == LET o == OpOutcome(p) d == Outcome(p) IN d.k = "open" \/ (o.k = d.k 
 XProgs == {[x |-> "unknown-target", line |-> l, im |-> i] : l \in {"map B Zz", "ignore Zz", "map Zz Zz"}, i \in BOOLEAN}
             \cup {q \in {[x |-> "method", field |-> f, meth |-> m, mic |-> c] : f \in {"none", "NAME", "Name"}, m \in {"none", "Name", "NaMe"}, c \in BOOLEAN} :
                       ~(q.field = "Name" /\ q.meth = "Name")}        \* Go forbids a field and a method of the same name
+            \* field settings on a method whose target is not a struct or a pointer to one cannot take effect: generation must fail
+            \cup {[x |-> "nonstruct", line |-> l, tgt |-> t] : l \in {"map Inner.B A", "ignore A", "ignoreMissing", "matchIgnoreCase", "ignoreUnexported", "autoMap Inner", "update:ignoreZeroValueField"},
+                                                               t \in {"list", "ptrptr", "map"}}
             \cup {[x |-> "reuse", setting |-> st, second |-> sc] : st \in {"none", "map", "ignore", "autoMap"}, sc \in {"none", "slice", "value"}}
 XExpect(q) ==
-  CASE q.x = "unknown-target" -> [gen |-> "fail", val |-> 0]
+  CASE q.x \in {"unknown-target", "nonstruct"} -> [gen |-> "fail", val |-> 0]
     [] q.x = "reuse" -> [gen |-> IF q.setting # "none" /\ q.second # "none" THEN "fail" ELSE "ok", val |-> 0]
     [] q.x = "method" ->
          LET exact == (IF q.field = "Name" THEN {"f"} ELSE {}) \cup (IF q.meth = "Name" THEN {"m"} ELSE {})
@@ -92,10 +95,15 @@ XExpect(q) ==
 \* ---------------------------------------------------------------- accessibility programs (C03 / C05)
 \* target struct TQ in package q, which is not the output package, with an unexported field secret; source SQ in
 \* package q with an unexported field hidden; the setting selects how secret or the exported field Open is fed
+\* same-package: source SS and target TS {Open, secret} declared in the package the output is written to: secret is accessible there
 AccProgs == {[side |-> sd, setting |-> st] : sd \in {"target-unexported", "source-unexported"},
                st \in {"none", "ignore", "ignoreUnexported", "map", "mapfunc", "ignoreMissing"}}
+            \cup {[side |-> "same-package", setting |-> st] : st \in {"none", "ignore", "ignoreUnexported"}}
+\* same-package: the value secret must have for the source {Open: 5, secret: 6}: copied, or left unassigned by ignore / ignoreUnexported
+AccSecret(a) == IF a.setting = "none" THEN 6 ELSE 0
 AccExpect(a) ==
-  IF a.side = "target-unexported"
+  IF a.side = "same-package" THEN "ok"
+  ELSE IF a.side = "target-unexported"
   THEN (IF a.setting \in {"ignore", "ignoreUnexported"} THEN "ok" ELSE "fail")      \* secret would have to be written from another package
   ELSE (IF a.setting \in {"map", "mapfunc"} THEN "fail"                             \* hidden would have to be read from another package
         ELSE IF a.setting \in {"ignore", "ignoreMissing"} THEN "ok" ELSE "fail")    \* Open has no source otherwise
